@@ -1173,4 +1173,4 @@ M('C04-on-neutral-png-shift', 'C04', F_PNG,
 M('C04-on-neutral-refuse-off', 'C04', F_PNG,
   "    if used_size > CODE_AREA_SIZE:\n",
   "    if used_size > CODE_AREA_SIZE + 256:\n",
-  expect='R-C04-refuse', on='neutral-C04')
+  expect='R-C04-refuse', on='neutral-C04', accept_error=True)
